@@ -10,7 +10,7 @@ def run(ck):
     kvh = ck.harness('omp', 'kvh')
     model = ck.model()
     rng = ck.rng
-    ck.rule = ('alignments (2..40 rows; widths 1..600 incl. multiples of 60; names of 1..200 characters from [A-Za-z0-9_.|-] incl. all-punctuation names and '
+    ck.rule = ('alignments (2..40 rows, every tenth 93..130 rows; widths 1..600 incl. multiples of 60; names of 1..200 characters from [A-Za-z0-9_.|-] incl. all-punctuation names and '
                'names that are prefixes of each other; upper/lower case) taken through write(f1) -> read -> finalise -> write(f2) -> read for all nine ordered '
                'format pairs; correspondence: every written file (bytes) and every read result (names, residues, gap vectors), model vs implementation; '
                'witness: final names and rows equal the original. Non-trivial = width > 60 or name longer than 10 characters; distinct by alignment x format pair')
@@ -22,6 +22,14 @@ def run(ck):
         cases = []
         for k in range(N):
             kind, names, rows = fc.gen_alignment(rng)
+            if k % 10 == 7:     # many rows: the header of an MSF file (one Name line per row) and the first block of a Clustal
+                                # file grow past the 100 lines the format sniffer looks at
+                nrow = rng.choice([93, 94, 95, 96, 99, 100, 101, 130])
+                w = min(len(rows[0]), 75)
+                rows = [rows[i % len(rows)][:w] for i in range(nrow)]
+                rows = [r if any(ch.isalpha() for ch in r) else 'A' + r[1:] for r in rows]
+                names = ['r%03d_%s' % (i, names[i % len(names)][:20]) for i in range(nrow)]
+                ck.count('alignments of 93..130 rows')
             src = os.path.join(tmp, 's%d.fa' % k)
             open(src, 'w').write(gen.fasta(names, rows))
             cases.append((k, kind, names, rows, src))
